@@ -78,6 +78,7 @@ type Source struct {
 	Total    lin.Form       // bits
 	TotalOK  bool
 	Emitted  map[bitdom.Atom]bool
+	Computed []string // assumptions made for computed values
 	Problems []string
 }
 
@@ -94,6 +95,9 @@ func (s *Source) place() {
 		}
 		if s.Chunks[i].Kind == CBits {
 			for _, f := range s.Chunks[i].Bits {
+				if f.Top {
+					continue // arithmetic on the way (a computed length): not a transmitted field bit
+				}
 				for _, a := range f.Atoms {
 					s.Emitted[a] = true
 				}
@@ -156,8 +160,32 @@ func vecMSB(v bitdom.Vec, w int) string {
 func (c *Checker) SourceFromOutcome(f *ssa.Function, o *pathint.Outcome, w string, name string) *Source {
 	s := &Source{Name: name, St: c.outcomeState(f, o)}
 	s.Chunks = c.chunksOf(o.Events, w, s)
+	c.nameComputed(s.Chunks, s)
 	s.place()
 	return s
+}
+
+// nameComputed gives an identity to emitted values that went through arithmetic (computed lengths): their bits are
+// not affine in the written fields, but the value is a known linear form L. The chunk becomes the bits of a fresh
+// symbol val(L) with val(L) = L (no wrap-around in the emitted width: recorded as an assumption), so that a parser
+// that reassembles the value from several bytes gets L back.
+func (c *Checker) nameComputed(chs []Chunk, s *Source) {
+	for i := range chs {
+		ch := &chs[i]
+		if ch.Kind == CRepeat {
+			c.nameComputed(ch.Body, s)
+			continue
+		}
+		if ch.Kind != CBits || ch.Lin == nil || !ch.Bits.HasTop() || ch.W < 2 || ch.W > 32 {
+			continue
+		}
+		name := "val(" + ch.Lin.String() + ")"
+		c.IP.SetBounds(name, 0, (int64(1)<<uint(ch.W))-1)
+		ch.Bits = c.IP.SymVec(name, ch.W)
+		d := lin.Sym(name).Sub(*ch.Lin)
+		s.St.Facts = append(s.St.Facts, lin.Fact{F: d}, lin.Fact{F: d.Scale(-1)})
+		s.Computed = append(s.Computed, fmt.Sprintf("%s fits the %d bits it is emitted in", ch.Lin.String(), ch.W))
+	}
 }
 
 func (c *Checker) chunksOf(evs []pathint.Event, w string, s *Source) []Chunk {
@@ -265,23 +293,24 @@ type Composition struct {
 }
 
 type composer struct {
-	c         *Checker
-	src       *Source
-	st        *pathint.State // clone of the source state, extended with assumptions
-	it        string         // parser-side iterator object id ("$i")
-	atoms     map[bitdom.Atom]bitdom.Form
-	linMap    map[string]lin.Form
-	blobs     map[string]string // parser fetch event -> source blob
-	po        *pathint.Outcome
-	assumed   map[string]bool
-	probs     []string
-	cond      []string
-	fetchSyms map[string]bool
-	doneFact  []bool
-	doneNE    []bool
-	guided    bool // values are already expressed over the source (oracle run)
-	dirty     bool // the state has assumptions beyond the source's own facts
-	cache     map[string]cached
+	c          *Checker
+	src        *Source
+	st         *pathint.State // clone of the source state, extended with assumptions
+	it         string         // parser-side iterator object id ("$i")
+	atoms      map[bitdom.Atom]bitdom.Form
+	linMap     map[string]lin.Form
+	blobs      map[string]string // parser fetch event -> source blob
+	po         *pathint.Outcome
+	assumed    map[string]bool
+	probs      []string
+	cond       []string
+	fetchSyms  map[string]bool
+	doneFact   []bool
+	doneNE     []bool
+	guided     bool // values are already expressed over the source (oracle run)
+	noFitFacts bool
+	dirty      bool // the state has assumptions beyond the source's own facts
+	cache      map[string]cached
 }
 
 type cached struct {
@@ -449,8 +478,10 @@ func (k *composer) linOfVec(v bitdom.Vec) (lin.Form, bool) {
 					return lin.Form{}, false
 				}
 				k.note(fmt.Sprintf("%s fits %d bits (0 <= value < 2^%d)", a.Src, run, run))
-				k.st.Facts = append(k.st.Facts, lin.Fact{F: bound}, lin.Fact{F: lin.Sym(a.Src)})
-				k.dirty = true
+				if !k.guided && !k.noFitFacts {
+					k.st.Facts = append(k.st.Facts, lin.Fact{F: bound}, lin.Fact{F: lin.Sym(a.Src)})
+					k.dirty = true
+				}
 			}
 		}
 		if i >= 62 {
@@ -912,6 +943,8 @@ type ComposeOpts struct {
 	Why      map[string]string
 	// Consumed: the number of bytes the parser is expected to consume (nil: not checked).
 	Consumed *lin.Form
+	// Start: initial cursor of the parser (bytes).
+	Start int64
 }
 
 // compare walks the parsed structure type and compares every leaf with the written structure's field.
@@ -1156,6 +1189,10 @@ func (k *composer) leaf(res *Composition, t types.Type, pv pathint.Val, exp stri
 				b, ok = pv.S.Blob, true
 			}
 			if ok {
+				if b == "padded:"+exp {
+					k.note("len(" + exp + ") equals the fixed size of its field (it is padded / cut to that size)")
+					b = exp
+				}
 				if b == exp {
 					res.Fields = append(res.Fields, FieldResult{Path: path, OK: true, Detail: "bytes " + b})
 				} else {
